@@ -12,7 +12,9 @@ import tracecheck
 QUANTIZED = ('DataVolume',)
 # a user type whose unit symbols contain a blank (like 'oz t', 'fl oz'): declared in the stage process, known to the
 # specification through the symbol table like every other unit
-BLANKY = [dict(s='bq', t='Blanky', f=[[1, 1]]), dict(s='oz t', t='Blanky', f=[[3, 100]]), dict(s='fl oz', t='Blanky', f=[[1, 4]])]
+BLANKY = [dict(s='bq', t='Blanky', f=[[1, 1]]), dict(s='oz t', t='Blanky', f=[[3, 100]]), dict(s='fl oz', t='Blanky', f=[[1, 4]]),
+          # symbols that Unicode normalisation would change (OHM SIGN, ANGSTROM SIGN) next to their normalised twins
+          dict(s='k\u2126', t='Blanky', f=[[7, 1]]), dict(s='k\u03a9', t='Blanky', f=[[9, 1]]), dict(s='\u212b', t='Blanky', f=[[1, 8]])]
 
 
 def spec_symbols():
@@ -32,7 +34,7 @@ def spec_symbols():
 def number_cases(tab, quick, rnd):
     cs = []
     units = [u['s'] for u in tab if u['t'] not in QUANTIZED]
-    pick = ['m', 'km', 'um', 'm2', 'km/h', 'm/s2', 'kWh', 'degC', 'J/m', 'lb', 'mps2', 'B/s', 'Kib/s', 'ms', 'oz t', 'fl oz']
+    pick = ['m', 'km', 'um', 'm2', 'km/h', 'm/s2', 'kWh', 'degC', 'J/m', 'lb', 'mps2', 'B/s', 'Kib/s', 'ms', 'oz t', 'fl oz', 'k\u2126', 'k\u03a9', '\u212b']
     vals = []
     for n in (0, 1, -1, 7, 10 ** 30, -10 ** 30 + 1, 123456789012345678901234567890):
         vals.append(('int', F(n)))
@@ -70,14 +72,14 @@ def string_cases(tab, quick, rnd):
                'abc', '1m', '1,5', '0x10', 'inf', 'nan', 'NaN', '1/0', '-3/0', '1.5/2', '1/2/3', '1 /3', '', 'one', '1\tm', '١٢']
     forms = ['{a} {s}', '  {a} {s}', '{a}   {s}', '{a} {s}  ', '{a}{s}', '{a} {s} {s}', '{a}', '{a} ', '{s}', '{a} {s}x', '{s} {a}', ' ']
     for a in amounts:
-        for s in (syms if not quick else syms[:6]) + (['oz t', 'fl oz', 'bq'] if a in ('1', '12.5', '1/3', '1e3', 'abc', '-7e-3') else []):
+        for s in (syms if not quick else syms[:6]) + (['oz t', 'fl oz', 'bq', 'k\u2126', 'k\u03a9', '\u212b'] if a in ('1', '12.5', '1/3', '1e3', 'abc', '-7e-3') else []):
             for form in (forms if (not quick or a in ('1', '1/3', '1e3', 'abc')) else forms[:5]):
                 text = form.format(a=a, s=actual(s))
                 for cls in ('Quantity', tab_type(tab, s), 'Mass'):
                     cs.append(dict(op='str', codes=[ord(ch) for ch in text], cls=cls))
     # parse with explicit other unit = parse then convert
     for (s, to) in (('km', 'm'), ('m', 'km'), ('in', 'cm'), ('mi', 'm'), ('km/h', 'm/s'), ('kWh', 'J'), ('m2', 'ha'), ('m', 's'),
-                    ('lb', 'kg'), ('h', 'min'), ('oz t', 'bq'), ('fl oz', 'oz t'), ('bq', 'fl oz'),
+                    ('lb', 'kg'), ('h', 'min'), ('oz t', 'bq'), ('fl oz', 'oz t'), ('bq', 'fl oz'), ('k\u2126', 'bq'), ('k\u03a9', 'k\u2126'), ('\u212b', 'bq'),
                     # units of equal scale are still different units
                     ('l', 'dm3'), ('dm3', 'l'), ('J', 'Nm'), ('Ws', 'J'),
                     # table-converted: every amount through the formula, whatever was parsed before
